@@ -29,7 +29,7 @@ func evalExpr(ctx context.Context, v rel.Value) (rel.Value, error) {
 		// Simple values only: the argument is evaluated with an empty library and an empty scope.
 		evaluated, err := contextualEval(ctx, EvalConfig{scopes: rel.EmptyTuple, stdlib: rel.EmptyTuple}, val)
 		if err != nil {
-			panic(err)
+			return nil, err
 		}
 		return evaluated, nil
 	}
